@@ -33,8 +33,8 @@
 EXTENDS Integers, Sequences, FiniteSets, TLC, Json, IOUtils
 CONSTANT Relaxed
 Tr == ndJsonDeserialize(IOEnv.TRACE)
-VARIABLES step, xtf, dh, dhset, rpc, taken, lastw, seen, lasttry
-vars == <<step, xtf, dh, dhset, rpc, taken, lastw, seen, lasttry>>
+VARIABLES step, xtf, dh, dhset, rpc, taken, tookall, lastw, seen, lasttry
+vars == <<step, xtf, dh, dhset, rpc, taken, tookall, lastw, seen, lasttry>>
 G(name, d, cond) == IF cond THEN TRUE ELSE (Relaxed /\ PrintT(<<"GUARDFAIL", name, step + 1, d>>))
 
 NULL == <<0, 0, 0>>
@@ -48,7 +48,7 @@ Empty == [x \in {} |-> 0]
 Idle == [ph |-> "idle", pg |-> 0, blk |-> NULL, hp |-> 0]
 Own(ev) == IF ev.fl[1] = 0 THEN NULL ELSE <<ev.fl[1], ev.fl[2], 0>>   \* the block containing the pointer being released, at its start
 
-Init == step = 0 /\ xtf = Empty /\ dh = Empty /\ dhset = Empty /\ rpc = Empty /\ taken = Empty /\ lastw = Empty /\ seen = Empty /\ lasttry = Empty
+Init == step = 0 /\ xtf = Empty /\ dh = Empty /\ dhset = Empty /\ rpc = Empty /\ taken = Empty /\ tookall = Empty /\ lastw = Empty /\ seen = Empty /\ lasttry = Empty
 
 IsCas(ev) == ev.k \in {"casw", "cass"}
 Reads(ev) == ev.k \in {"ld", "casw", "cass", "xchg"}
@@ -101,7 +101,7 @@ XtfStep(ev) ==
               THEN Put(taken, t, {b \in Get(taken, t, {}) : b[1] # P}) ELSE taken
   /\ lastw' = IF ev.f = "_mi_page_try_use_delayed_free" THEN lastw ELSE Put(lastw, t, <<"xtf", P>>)
   /\ lasttry' = Put(lasttry, t, IF ev.f = "_mi_page_try_use_delayed_free" THEN P ELSE 0)
-  /\ UNCHANGED <<dh, dhset>>
+  /\ UNCHANGED <<dh, dhset, tookall>>
 
 \* ---- a step on a heap's delayed-free word
 DhStep(ev) ==
@@ -131,10 +131,11 @@ DhStep(ev) ==
      THEN G("DelayedPushOwn", <<new, r.blk>>, (r.blk = NULL /\ new[3] = 0) \/ new = r.blk)
      ELSE TRUE
   /\ IF isPush /\ ev.f = "_mi_heap_delayed_free_partial"
-     THEN G("RepushTaken", new, new \in Get(taken, t, {}))
+     THEN G("RepushTaken", new, new \in Get(tookall, t, {}))
      ELSE TRUE
   /\ dh' = Put(dh, H, IF wr THEN new ELSE obs)
   /\ dhset' = Put(dhset, H, IF isTake THEN {} ELSE IF isPush THEN set \cup {new} ELSE set)
+  /\ tookall' = IF isTake THEN Put(tookall, t, Get(tookall, t, {}) \cup set) ELSE tookall      \* everything the thread took in this call (RepushTaken); `taken` is what is not settled yet
   /\ taken' = IF isTake THEN Put(taken, t, Get(taken, t, {}) \cup set)
               ELSE IF isPush /\ ev.f = "_mi_heap_delayed_free_partial" THEN Put(taken, t, Get(taken, t, {}) \ {new})
               ELSE taken
@@ -162,21 +163,21 @@ XheapStep(ev) ==
   /\ rpc' = Put(rpc, t, r2)
   /\ lastw' = Put(lastw, t, <<"xheap", P>>)
   /\ lasttry' = IF ev.k = "st" THEN Put(lasttry, t, 0) ELSE lasttry
-  /\ UNCHANGED <<xtf, dh, dhset, taken, seen>>
+  /\ UNCHANGED <<xtf, dh, dhset, taken, tookall, seen>>
 
 Next ==
   /\ step < Len(Tr) /\ step' = step + 1
   /\ LET ev == Tr[step + 1] IN
-     CASE ev.e = "step" /\ ev.id = 0 -> UNCHANGED <<xtf, dh, dhset, rpc, taken, lastw, seen, lasttry>>      \* (table of ids full)
+     CASE ev.e = "step" /\ ev.id = 0 -> UNCHANGED <<xtf, dh, dhset, rpc, taken, tookall, lastw, seen, lasttry>>      \* (table of ids full)
        [] ev.e = "step" /\ ev.w = "xtf" -> XtfStep(ev)
        [] ev.e = "step" /\ ev.w = "dh" -> DhStep(ev)
        [] ev.e = "step" /\ ev.w = "xheap" -> XheapStep(ev)
        [] ev.e = "ret" ->
             /\ G("RearmAfterDrain", <<ev.t, ev.op, Get(taken, ev.t, {})>>, Get(taken, ev.t, {}) = {})
-            /\ taken' = Put(taken, ev.t, {})
+            /\ taken' = Put(taken, ev.t, {}) /\ tookall' = Put(tookall, ev.t, {})
             /\ UNCHANGED <<xtf, dh, dhset, rpc, lastw, seen, lasttry>>
-       [] ev.e \in {"reset", "cfg"} -> xtf' = Empty /\ dh' = Empty /\ dhset' = Empty /\ rpc' = Empty /\ taken' = Empty /\ lastw' = Empty /\ seen' = Empty /\ lasttry' = Empty
-       [] OTHER -> UNCHANGED <<xtf, dh, dhset, rpc, taken, lastw, seen, lasttry>>
+       [] ev.e \in {"reset", "cfg"} -> xtf' = Empty /\ dh' = Empty /\ dhset' = Empty /\ rpc' = Empty /\ taken' = Empty /\ tookall' = Empty /\ lastw' = Empty /\ seen' = Empty /\ lasttry' = Empty
+       [] OTHER -> UNCHANGED <<xtf, dh, dhset, rpc, taken, tookall, lastw, seen, lasttry>>
 Spec == Init /\ [][Next]_vars
 TraceView == step
 TraceAccepted == /\ PrintT(<<"TVDIAMETER", TLCGet("stats").diameter - 1>>) /\ TLCGet("stats").diameter - 1 = Len(Tr)
